@@ -429,6 +429,64 @@ func c14AfterEventStream(si int) func(w *World) []Violation {
 	}
 }
 
+// c14DrainDuringUpload: an operator command drains the target while a request body larger than the memory buffer is
+// still arriving piece by piece; the drain gives the request up at its deadline, the rest of the body arrives
+// afterwards. Whatever the client is answered, the spill file is gone once the request has ended.
+func c14DrainDuringUpload(cmd string, drainAfterPieces int) func(w *World) []Violation {
+	return func(w *World) []Violation {
+		var vs []Violation
+		tg := w.AddTarget("btdr:80")
+		tg.Responder = c14Responder
+		tg2 := w.AddTarget("btdr2:80")
+		tg2.Responder = c14Responder
+		a := deployArgs("bsdr", []string{"btdr:80"}, []string{"drain.example.com"}, nil)
+		a.TargetOptions.BufferRequests, a.TargetOptions.MaxMemoryBufferSize = true, 4
+		if r := w.Deploy(a); r.Err != nil {
+			return append(vs, Violation{"C14", "deploy-failed", r.Err.Error()})
+		}
+		pieces := [][]byte{[]byte("abcdef"), []byte("ghijkl"), []byte("mnopqr"), []byte("stuvwx"), []byte("yz0123")}
+		var wg vsync.WaitGroup
+		wg.Add(1)
+		w.reqSeq++
+		id := fmt.Sprintf("c14dr-%d", w.reqSeq)
+		var o *ReqObs
+		vsched.GoTagged("client", func() {
+			defer wg.Done()
+			o = w.Do(ReqSpec{ID: id, Method: "POST", Host: "drain.example.com", Path: "/x", BodyChunks: pieces, BodyGap: 200 * time.Millisecond,
+				Header: [][2]string{{"X-Resp", "len=3;pat=one;kind=plain"}}})
+		})
+		time.Sleep(time.Duration(drainAfterPieces)*200*time.Millisecond - 100*time.Millisecond)
+		during := len(spillFiles(w))
+		switch cmd {
+		case "pause":
+			w.Pause("bsdr", 150*time.Millisecond, vMaxPause)
+		case "stop":
+			w.Stop("bsdr", 150*time.Millisecond, "m")
+		case "redeploy":
+			a2 := deployArgs("bsdr", []string{"btdr2:80"}, []string{"drain.example.com"}, nil)
+			a2.TargetOptions.BufferRequests, a2.TargetOptions.MaxMemoryBufferSize = true, 4
+			a2.DrainTimeout = 150 * time.Millisecond
+			w.Deploy(a2)
+		}
+		wg.Wait()
+		if drainAfterPieces >= 2 && during == 0 {
+			vs = append(vs, Violation{"C14", "spill-file-presence kind=drain-during-upload", "no spill file although more than the memory buffer had arrived"})
+		}
+		if f := spillFiles(w); len(f) > 0 {
+			sum := "none"
+			if o != nil {
+				sum = o.Summary()
+			}
+			vs = append(vs, Violation{"C14", "spill-file-left-behind kind=drain-during-upload", fmt.Sprintf("%s with a 150ms drain timeout after %d of 5 body pieces; the request ended as %s; left: %v", cmd, drainAfterPieces, sum, f)})
+			for _, x := range f {
+				os.Remove(w.Dir + "/tmp/" + x)
+			}
+		}
+		w.Remove("bsdr")
+		return vs
+	}
+}
+
 // c14ExpectContinue: the client announces its body with `Expect: 100-continue`, the target answers `100 Continue`
 // and then its final response (201 / 404 with a body): status, headers and body reach the client unchanged whatever
 // is buffered.
@@ -739,6 +797,11 @@ func c14Cases(tier string) []ECase {
 			cases = append(cases, ECase{Name: fmt.Sprintf("L2 svc=%d overlapping buffered responses after an event stream", si), Class: "L2 after-event-stream", Run: c14AfterEventStream(si)})
 		}
 	}
+	for _, cmd := range []string{"pause", "stop", "redeploy"} {
+		for _, k := range []int{1, 2, 4} {
+			cases = append(cases, ECase{Name: fmt.Sprintf("L2 %s draining the target after %d of 5 body pieces", cmd, k), Class: "L2 drain-during-upload " + cmd, Run: c14DrainDuringUpload(cmd, k)})
+		}
+	}
 	cases = append(cases, ECase{Name: "L2 requests with Expect: 100-continue", Class: "L2 expect-continue", Run: c14ExpectContinue})
 	cases = append(cases, ECase{Name: "L2 HEAD requests for entities on both sides of the response limit", Class: "L2 head", Run: c14Head})
 	cases = append(cases, ECase{Name: "L2 200kB body in memory, target answers early, then two more requests", Class: "L2 early-answer big", Run: c14EarlyAnswerBig})
@@ -751,7 +814,7 @@ func checkC14(t *testing.T, job *Job, res *Result) {
 	if job.Replay != nil {
 		tier = job.Replay.Tier
 	}
-	res.Rule = "level 1: Buffer directly: memory limit M in {0,1,2,3,5} x total limit L in {0,M-1,M,M+1,2M+1} x body length 0..L+2 (<=7 quick, <=9 thorough) x EVERY composition of the body into write chunks x read-back chunking {1,2,all}; level 2: through the handler chain: request/response buffering on/off x (M,Lreq,Lresp) x body lengths {0,M,M+1,L,L+1,L+5,9} x chunk patterns {one, bytewise, M|rest, piece over the limit followed by a piece that fits again} with virtual gaps x request bodies with and without a declared length x endings {success, 413, 500, target cut mid-body, target answering before it has read the body (followed by another request), client abort mid-upload, client abort while waiting} x {plain, event stream with timed events, upgrade}; oracle: accepted/overflow decisions, memory bound, spill presence, exact bytes, timing on the virtual clock, no spill file left"
+	res.Rule = "level 1: Buffer directly: memory limit M in {0,1,2,3,5} x total limit L in {0,M-1,M,M+1,2M+1} x body length 0..L+2 (<=7 quick, <=9 thorough) x EVERY composition of the body into write chunks x read-back chunking {1,2,all}; level 2: through the handler chain: request/response buffering on/off x (M,Lreq,Lresp) x body lengths {0,M,M+1,L,L+1,L+5,9} x chunk patterns {one, bytewise, M|rest, piece over the limit followed by a piece that fits again} with virtual gaps x request bodies with and without a declared length x endings {success, 413, 500, target cut mid-body, target answering before it has read the body (followed by another request), client abort mid-upload, client abort while waiting, the target drained by pause / stop / redeploy while the body is still arriving} x {plain, event stream with timed events, upgrade}; oracle: accepted/overflow decisions, memory bound, spill presence, exact bytes, timing on the virtual clock, no spill file left"
 	res.Bounds = "see rule"
 	runE(t, job, res, &ESpec{Prop: "C14", Setup: c14Setup, Cases: c14Cases(tier), Batch: 300})
 }
